@@ -74,3 +74,75 @@ Theorem C11_typed_dead : forall rk cf t p tl c i,
 Proof. exact (@TypedPrefix.C11_typed_dead). Qed.
 Print Assumptions C11_typed_dead.
 
+
+(* ---- the CONVERSE (Proofs/Viable*.v): an Eof-category error means the input really is a viable prefix — some continuation is accepted.
+        The completion is constructed from the parser state (close the string / escape / number / literal, supply a missing value, close the
+        brackets innermost first; it never opens a container).  Three decidable side conditions are needed, and each is necessary:
+          utf8_prefix p     p is valid UTF-8 up to an incomplete final sequence (slice / reader input validates UTF-8 only at the closing quote:
+                            an unterminated string holding a byte that no UTF-8 text contains fails with Eof although no continuation is JSON —
+                            known finding F24, witness C11_F24_dead_prefix_reports_eof; a &str is valid UTF-8 by type: C11_eof_viable_str)
+          esc_tail_ok p     the input does not end inside a \u escape that can no longer be completed (a non-hex digit so far, or a lone low
+                            surrogate) — "a \u escape cut off by the end of input counts as truncation" in the property's own words
+          HRnum cf p        the input does not end in `e+` after a mantissa that alone is out of range (> 308 integer digits; void under
+                            arbitrary_precision) *)
+From SJ Require Import Base.Utf8 Model.Ignore Spec.Syntax Spec.Denote Proofs.ViableBase Proofs.ViableStr Proofs.ViableNum Proofs.ViableDe Proofs.Viable Proofs.ViableExamples
+  Proofs.ViableDecide Proofs.ViableIgnore Proofs.ViableStrSrc.
+Local Notation SE cf := (mkEnv RSlice TEof cf).
+
+Theorem C11_eof_viable_grammar : forall cf p c i,
+  from_input (SE cf) p = Err c i -> category c = CatEof ->
+  utf8_prefix p -> esc_tail_ok p = true ->
+  exists t, InLang (cf_ap cf) (p ++ t).
+Proof. exact Viable.C11_eof_viable_grammar. Qed.
+Print Assumptions C11_eof_viable_grammar.
+
+Theorem C11_eof_viable_partial : forall cf p c i,
+  from_input (SE cf) p = Err c i -> category c = CatEof ->
+  utf8_prefix p -> esc_tail_ok p = true -> HRnum cf p ->
+  exists t, InLang cf (p ++ t) /\ exists v, from_input (SE cf) (p ++ t) = Ok v.
+Proof. exact Viable.C11_eof_viable_partial. Qed.
+Print Assumptions C11_eof_viable_partial.
+
+Theorem C11_eof_viable_decidable : forall cf p c i,
+  from_input (SE cf) p = Err c i -> category c = CatEof ->
+  utf8_prefixb p = true -> esc_tail_ok p = true -> HRnumb cf p = true ->
+  exists t v, from_input (SE cf) (p ++ t) = Ok v.
+Proof. exact ViableDecide.C11_eof_viable_decidable. Qed.
+Print Assumptions C11_eof_viable_decidable.
+
+Theorem C11_eof_viable_reader : forall cf p c i,
+  from_input (mkEnv RIo TEof cf) p = Err c i -> category c = CatEof ->
+  utf8_prefixb p = true -> esc_tail_ok p = true -> HRnumb cf p = true ->
+  exists t v, from_input (mkEnv RIo TEof cf) (p ++ t) = Ok v.
+Proof. exact ViableDecide.C11_eof_viable_reader. Qed.
+Print Assumptions C11_eof_viable_reader.
+
+Theorem C11_eof_viable_str : forall cf p c i,
+  from_input (mkEnv RStr TEof cf) p = Err c i -> category c = CatEof ->
+  utf8_valid p = true -> esc_tail_ok p = true -> HRnum cf p ->
+  exists t v, from_input (mkEnv RStr TEof cf) (p ++ t) = Ok v.
+Proof. exact ViableStrSrc.C11_eof_viable_str. Qed.
+Print Assumptions C11_eof_viable_str.
+
+Theorem C11_eof_viable_ignored : forall cf p c i,
+  ignored_from_input (SE cf) p = Err c i -> category c = CatEof ->
+  Forall (fun b => b < 256) p -> iesc_tail_ok p = true ->
+  exists t, ignored_from_input (SE cf) (p ++ t) = Ok tt.
+Proof. exact ViableIgnore.C11_eof_viable_ignored. Qed.
+Print Assumptions C11_eof_viable_ignored.
+
+Theorem C11_F24_dead_prefix_reports_eof : forall cf t v, Forall P256 t -> from_input (SE cf) (p_utf8 ++ t) <> Ok v.
+Proof. exact ViableExamples.p_utf8_dead. Qed.
+Print Assumptions C11_F24_dead_prefix_reports_eof.
+
+Theorem C11_cut_hex_escape_dead : forall cf t v, Forall P256 t -> from_input (SE cf) (p_hex ++ t) <> Ok v.
+Proof. exact ViableExamples.p_hex_dead. Qed.
+Print Assumptions C11_cut_hex_escape_dead.
+
+Theorem C11_cut_low_surrogate_dead : forall cf t v, Forall P256 t -> from_input (SE cf) (p_low ++ t) <> Ok v.
+Proof. exact ViableExamples.p_low_dead. Qed.
+Print Assumptions C11_cut_low_surrogate_dead.
+
+(* the witnesses evaluate: the two bytes 0x22 0xFF (an opening quote and a byte no UTF-8 text contains) are reported as Eof at their end, and are dead (theorem above) *)
+Example C11_F24_witness : from_input (SE cfg0) p_utf8 = Err EofWhileParsingString 2 /\ utf8_prefixb p_utf8 = false.
+Proof. split; vm_compute; reflexivity. Qed.
